@@ -237,7 +237,8 @@ def mkPN (stage : Nat) (method : List Char) (bob single : Option (List (Int × L
   match custom? with
   | none => none
   | some custom =>
-    match startingRow stage custom with
+    -- `rounds(stage)` / `Bell.from_number(i)` raise ValueError above 16 bells
+    match (if maxBell < stage then none else startingRow stage custom) with
     | none => none
     | some sr =>
       match convertPN method with
@@ -285,7 +286,7 @@ def mkSimple (kind : GenKind) (customStart : Option (List Char)) : Option Gen :=
   match custom? with
   | none => none
   | some custom =>
-    match startingRow kind.stage custom with
+    match (if maxBell < kind.stage then none else startingRow kind.stage custom) with
     | none => none
     | some sr => some (Gen.init kind custom sr)
 
@@ -345,7 +346,8 @@ def mkComp (stage : Nat) (payload : List (List Char × List Char)) : Except Comp
     match countLeading first payload 0 with
     | none => .error .indexError
     | some nsr =>
-      match payload.mapM (fun (r, c) => (bellsOfString r).map (fun row => (row, callsOfField c))) with
+      match (if maxBell < stage then none else
+              payload.mapM (fun (r, c) => (bellsOfString r).map (fun row => (row, callsOfField c)))) with
       | none => .error .valueError
       | some loaded =>
         let early := ((loaded.take nsr).zipIdx.filter (fun (rc, _) => rc.2 != [])).map
